@@ -299,6 +299,8 @@ def generate() -> str:
 
 
 EXTRA_SECTIONS: list = []
+from extract_capture import capture_section  # noqa: E402
+EXTRA_SECTIONS.append(capture_section)
 
 
 def main(write: bool = True) -> int:
